@@ -1045,6 +1045,93 @@ fn exhaustive(prop: &str, maxlen: usize, sample: u64, out: &mut gv_harness::Out,
     c
 }
 
+// ------------------------------------------------------------------------------- concurrent commits
+
+/// Two threads commit the two halves of a conflicting pair at the same instant (released by a
+/// barrier), round after round, on one manager that carries `ballast` aborted, uncollected records
+/// (they lengthen validation).  Even rounds: both wrote the same entity under SnapshotIsolation
+/// (C03: at most one may commit); odd rounds: a write-skew pair under Serializable (C04: at most one
+/// may commit).  In every round exactly one of the two must commit (validation and publication
+/// are one critical section), and all commit epochs of the run are distinct.  SUPPORT ONLY: real
+/// threads, OS schedule; the theorems treat `commit` as atomic, this is what checks that it is.
+fn conc_commit_case(prop: &str, rounds: usize, ballast: usize) -> Case {
+    use std::sync::{Arc, Barrier};
+    let m = Arc::new(TransactionManager::new());
+    for _ in 0..ballast {
+        let t = m.begin();
+        let _ = m.abort(t);
+    }
+    let (mut both, mut none, mut panics) = (0usize, 0usize, 0usize);
+    let mut epochs: Vec<u64> = Vec::new();
+    let mut first_bad: Option<String> = None;
+    for r in 0..rounds {
+        let skew = if prop == "C04" { r % 4 != 0 } else { r % 4 == 0 };
+        let a = EntityId::Node(NodeId::new(10_000 + 2 * r as u64));
+        let b = EntityId::Node(NodeId::new(10_001 + 2 * r as u64));
+        let iso = if skew { IsolationLevel::Serializable } else { IsolationLevel::SnapshotIsolation };
+        let t1 = m.begin_with_isolation(iso);
+        let t2 = m.begin_with_isolation(iso);
+        if skew {
+            for t in [t1, t2] {
+                let _ = m.record_read(t, a);
+                let _ = m.record_read(t, b);
+            }
+            let _ = m.record_write(t1, a);
+            let _ = m.record_write(t2, b);
+        } else {
+            let _ = m.record_write(t1, a);
+            let _ = m.record_write(t2, a);
+        }
+        let bar = Arc::new(Barrier::new(2));
+        let rs: Vec<Option<Result<u64, ErrK>>> = std::thread::scope(|sc| {
+            let hs: Vec<_> = [t1, t2]
+                .into_iter()
+                .map(|t| {
+                    let m = Arc::clone(&m);
+                    let bar = Arc::clone(&bar);
+                    sc.spawn(move || {
+                        bar.wait();
+                        m.commit(t).map(|e| e.as_u64()).map_err(|e| errk(&e))
+                    })
+                })
+                .collect();
+            hs.into_iter().map(|h| h.join().ok()).collect()
+        });
+        let oks: Vec<u64> = rs.iter().filter_map(|x| x.as_ref().and_then(|y| y.as_ref().ok().copied())).collect();
+        if rs.iter().any(|x| x.is_none()) {
+            panics += 1;
+        }
+        epochs.extend(oks.iter().copied());
+        if oks.len() == 2 {
+            both += 1;
+        }
+        if oks.is_empty() {
+            none += 1;
+        }
+        if (oks.len() != 1) && first_bad.is_none() {
+            first_bad = Some(format!("round {} ({}): answers {:?}", r, if skew { "write skew pair, Serializable" } else { "same entity, SnapshotIsolation" }, rs));
+        }
+        for (t, x) in [t1, t2].into_iter().zip(rs.iter()) {
+            if !matches!(x, Some(Ok(_))) {
+                let _ = m.abort(t);
+            }
+        }
+    }
+    let mut sorted = epochs.clone();
+    sorted.sort_unstable();
+    sorted.dedup();
+    let dup = epochs.len() - sorted.len();
+    let mut c = Case::default();
+    c.kind = "conc-commit".into();
+    c.input = format!("{} rounds of two threads committing a conflicting pair at once (ballast {} aborted records)", rounds, ballast);
+    c.imp = format!("both-committed={} none-committed={} panics={} duplicate-epochs={} first-bad={:?}", both, none, panics, dup, first_bad);
+    c.oracle = if both == 0 && none == 0 && panics == 0 && dup == 0 { Oracle::Ok } else { Oracle::Fail };
+    c.msg = "support: real threads; exactly one of two simultaneous conflicting commits is accepted and epochs are unique".into();
+    c.nontrivial = false;
+    c.tags = vec![format!("conc-commit:{}rounds", rounds)];
+    c
+}
+
 // ------------------------------------------------------------------------------- replay
 
 fn extract_json_string(txt: &str, key: &str) -> Option<String> {
@@ -1163,6 +1250,9 @@ fn main() {
         let c = tm_case(&prop, kind, &ops, tags, &mut r);
         out.emit(&c);
     }
+    // concurrent commits (support: real threads)
+    let c = conc_commit_case(&prop, if thorough { 4000 } else { 600 }, if thorough { 60_000 } else { 20_000 });
+    out.emit(&c);
     // exhaustive small scope (support)
     let (maxlen, sample) = if thorough { (8, 600_000) } else { (6, 10_000) };
     let mut re = r.fork();
